@@ -10,22 +10,22 @@ def K(harness, **kw):
     return dict(kind='kani', harness=harness, **kw)
 
 PROPS = {
-    'C01': dict(level='proof', steps=[V('wlex')],
+    'C01': dict(level='proof', steps=[V('writer')],
                 title='Save then load returns the same document',
                 technique='Verus contracts on mechanically extracted writer functions (spec encodings from ISO 32000-1 7.3)',
                 text='writer side: every lexical writer function emits exactly the ISO encoding of its argument (unbounded, Verus).',
                 note='std fmt/itoa shims trusted; reader side (nom) not under contract'),
-    'C03': dict(level='proof', steps=[V('wlex')],
+    'C03': dict(level='proof', steps=[V('writer')],
                 title='Saved files are valid PDF for a strict third-party reader',
                 technique='Verus contracts on mechanically extracted writer functions',
                 text='byte-exact layout contract of the writer functions (Verus).',
                 note='std fmt/itoa shims trusted'),
-    'C14': dict(level='proof', steps=[V('wlex')],
+    'C14': dict(level='proof', steps=[V('writer')],
                 title='Content streams survive encode and decode',
                 technique='Verus contracts on mechanically extracted writer functions',
                 text='encoder side under contract (Verus).',
                 note='nom parser side not under contract'),
-    'C19': dict(level='proof', steps=[V('wlex')],
+    'C19': dict(level='proof', steps=[V('writer')],
                 title='Saving reports sink failures and ignores sink chunking',
                 technique='Verus capacity-sink contract wrote(old,new,ok,enc) on every writer function',
                 text='for every failure offset: Ok iff everything fitted, delivered bytes are a prefix of the complete output (Verus).',
